@@ -353,7 +353,8 @@ def run_case(md, case):
                 r, m = op[1], op[2]
                 if m is None:
                     regs[r].unitcell_vectors = None
-                elif len(op) > 3 and op[3]:
+                elif (len(op) > 3 and op[3]) or m == 0:
+                    # all-zero (or empty) vectors mean "no cell"; no data source is consumed (as in the model)
                     regs[r].unitcell_vectors = np.zeros((m, 3, 3), dtype=np.float32)
                 else:
                     a = gen_vectors(seed, nsrc, m)
